@@ -613,39 +613,52 @@ impl Mutation {
 
 pub struct Subscription;
 
-fn events(ctx: &Context<'_>) -> usize {
-    ctx.data_unchecked::<W>().events
+
+/// `n` events; when a scheduler is present, event i is released by the gate `<key>@<i>`.
+fn event_stream<T: Send + 'static>(wd: W, key: &'static str, mk: impl Fn(&Wd) -> T + Send + Sync + 'static) -> impl Stream<Item = T> {
+    let mk = Arc::new(mk);
+    stream::unfold(0usize, move |i| {
+        let wd = wd.clone();
+        let mk = mk.clone();
+        async move {
+            if i >= wd.events {
+                return None;
+            }
+            if let Some(h) = &wd.gates {
+                h.gate(format!("{key}@{i}")).await;
+            }
+            wd.log(format!("E:{key}@{i}"));
+            Some((mk(&wd), i + 1))
+        }
+    })
 }
 
 #[Subscription]
 impl Subscription {
     async fn ev(&self, ctx: &Context<'_>) -> impl Stream<Item = Result<Option<A>>> {
         let wd = ctx.data_unchecked::<W>().clone();
-        let n = events(ctx);
-        stream::iter((0..n).map(move |_| match wd.table.get("ev") {
+        event_stream(wd, "ev", |wd| match wd.table.get("ev") {
             Some(Ans::Err) => Err(boom()),
             Some(Ans::Null) => Ok(None),
             _ => Ok(Some(A)),
-        }))
+        })
     }
     async fn evn(&self, ctx: &Context<'_>) -> impl Stream<Item = Result<Option<i32>>> {
         let wd = ctx.data_unchecked::<W>().clone();
-        let n = events(ctx);
-        stream::iter((0..n).map(move |_| match wd.table.get("evn") {
+        event_stream(wd, "evn", |wd| match wd.table.get("evn") {
             Some(Ans::Err) => Err(boom()),
             Some(Ans::Null) => Ok(None),
             Some(Ans::Int(i)) => Ok(Some(*i as i32)),
             _ => Ok(Some(1)),
-        }))
+        })
     }
     async fn evnn(&self, ctx: &Context<'_>) -> impl Stream<Item = Result<i32>> {
         let wd = ctx.data_unchecked::<W>().clone();
-        let n = events(ctx);
-        stream::iter((0..n).map(move |_| match wd.table.get("evnn") {
+        event_stream(wd, "evnn", |wd| match wd.table.get("evnn") {
             Some(Ans::Err) => Err(boom()),
             Some(Ans::Int(i)) => Ok(*i as i32),
             _ => Ok(1),
-        }))
+        })
     }
 }
 
